@@ -113,6 +113,7 @@ class Frame:
         self.env = {}
         self.pc = list(pc)              # enclosing branch conditions (stack)
         self.perm = []                  # conditions known to hold for the rest of the function
+        self.ret_perm = []              # the subset established by an early *return*: later effects on heap objects happen only under them
         self.pending = []               # early returns: (cond, term)
         self.loops = list(loops)        # enclosing loop variables (terms)
         self.breaks = []                # stack of lists of (cond, env) for the innermost loop
@@ -400,6 +401,8 @@ class Frame:
             self.perm.extend(live_perm)
             if isinstance(dead_o, Ret):
                 self.pending.append((T.and_(self.pc + [dead_c]), dead_o.term))
+                # the function has returned on the other path: what follows changes an object's state only where this path is taken
+                self.ret_perm.append(T.and_(self.pc + [live_c]))
             return FALL
         # both branches leave
         if isinstance(o1, Ret) and isinstance(o2, Ret):
@@ -751,7 +754,7 @@ class Frame:
             base = self.ex(t.value)
             if base[0] == 'obj':
                 attrs = self.ctx.heap[base[1]]['attrs']
-                g = self.guard()
+                g = T.and_(self.pc + self.ret_perm)
                 attrs[t.attr] = v if g == TRUE else T.gamma(g, v, attrs.get(t.attr, ('undefined', t.attr)))
                 self.ctx.event('setattr', t.attr, (base, v), guard=g, loops=self.loops, where=self.where(node))
             else:
